@@ -278,6 +278,13 @@ fn register(run: &mut Run, req: &Value) -> Value {
     }
 }
 
+/// C14: the credential's JSON parses back to an equal value (equality through re-serialisation and Debug)
+fn reparses<T: serde::Serialize + serde::de::DeserializeOwned + std::fmt::Debug>(c: &T) -> bool {
+    let Ok(text) = serde_json::to_string(c) else { return false };
+    let Ok(back) = serde_json::from_str::<T>(&text) else { return false };
+    serde_json::to_string(&back).ok().as_deref() == Some(&text) && format!("{back:?}") == format!("{c:?}")
+}
+
 fn uv_req(s: &str) -> UserVerificationRequirement {
     match s {
         "required" => UserVerificationRequirement::Required,
@@ -306,7 +313,8 @@ fn judge_register(run: &mut Run, p: &Prepared, c: &CreatedPublicKeyCredential, e
     let mut client = json!({"present": true, "cdType": ty, "chalOk": chal_ok, "originOk": origin_ok, "crossOrigin": cross,
                             "copiesEqual": copies, "attFmt": if stmt_empty { fmt } else { format!("{fmt}+stmt") },
                             "idOk": c.id == rp::b64url(&c.raw_id), "rawIdOk": false, "coseEqDer": false,
-                            "algReported": c.response.public_key_algorithm, "credProps": "absent", "orderOk": order_ok});
+                            "algReported": c.response.public_key_algorithm, "credProps": "absent", "orderOk": order_ok,
+                            "reparse": reparses::<CreatedPublicKeyCredential>(c)});
     client["credProps"] = json!(match c.client_extension_results.cred_props.as_ref().and_then(|p| p.discoverable) {
         Some(true) => "true",
         Some(false) => "false",
@@ -425,7 +433,7 @@ fn judge_authenticate(run: &mut Run, p: &Prepared, c: &AuthenticatedPublicKeyCre
                         "copiesEqual": c.response.attestation_object.is_none(), "attFmt": "none",
                         "idOk": c.id == rp::b64url(&c.raw_id), "rawIdOk": true, "coseEqDer": true,
                         "algReported": 0, "credProps": if c.client_extension_results.cred_props.is_some() { "present" } else { "absent" },
-                        "orderOk": order_ok});
+                        "orderOk": order_ok, "reparse": reparses::<AuthenticatedPublicKeyCredential>(c)});
     if let Some(ad) = rp::parse_authdata(bytes) {
         d["wf"] = json!(ad.well_formed);
         d["flags"] = json!(rp::flag_names(ad.flags));
